@@ -15,7 +15,9 @@ open Paloma.Abi Paloma.SignBytes Paloma.Attest
          replaces the stored message with that id)
   rm <id>                                                                  → ok
   attestev <id> <shares addr:share,…> <totalShares> <evidence>…   (store order; one token each)
-        evidence: <addr>;tx;<hash>;<status|->;<data>;<deployLog 0|1>;<receiptVariant>
+        evidence: <addr>;tx;<hash>;<status|->;<data>;<deployLog 0|1>;<receiptVariant>[;<txEncoding>]
+                    (txEncoding: 0 = canonical serialization (default), n = EIP-4844 network form with
+                     sidecar n; same <hash> = same remote transaction whatever the encoding)
                 | <addr>;err;<n> | <addr>;other;<n>
       → as `attest`, with proc=<0|1 per distinct tx hash in order of first appearance>
   attest <id> none | err | other | tx <hash> <status|-> <data> <deployLog 0|1>
@@ -128,6 +130,11 @@ def parseEvidence? (s : String) : Option EvidenceV :=
     let st ← (if st == "-" then some none else (parseNat? st).map some)
     let p : TxProof := { hash := ← parseNat? h, data := ← Driver.C05.parseBytes? data, receipt := st,
                          deployLog := ← parseBool? log, variant := ← parseNat? var }
+    pure (← parseNat? a, .tx p)
+  | [a, "tx", h, st, data, log, var, enc] => do
+    let st ← (if st == "-" then some none else (parseNat? st).map some)
+    let p : TxProof := { hash := ← parseNat? h, data := ← Driver.C05.parseBytes? data, receipt := st,
+                         deployLog := ← parseBool? log, variant := ← parseNat? var, enc := ← parseNat? enc }
     pure (← parseNat? a, .tx p)
   | [a, "err", n] => do pure (← parseNat? a, .errorProof (← parseNat? n))
   | [a, "other", n] => do pure (← parseNat? a, .other (← parseNat? n))
